@@ -64,10 +64,19 @@ func genFragment(t *simrt.Tape, name string, mask uint64) Fragment {
 	if t.Draw(2) == 1 {
 		perm = []int{1, 0, 2}
 	}
+	// a source fragment has no inputs at all (a constant, the way library/flexpy's numzero/numfull are)
+	if t.Draw(6) == 5 {
+		nin = 0
+	}
 	f.ResIn = append(f.ResIn, perm[:nin]...)
 	defined := map[int]bool{}
 	for _, r := range f.ResIn {
 		defined[r] = true
+	}
+	if nin == 0 {
+		a := t.Draw(nreg)
+		f.Body = append(f.Body, Op{Op: "rset", A: a, Imm: uint64(1+t.Draw(200)) & mask})
+		defined[a] = true
 	}
 	pickDef := func() int {
 		var d []int
@@ -226,7 +235,11 @@ func regList(rs []int) string {
 func (g *Graph) BASM(p Partition) string {
 	var b strings.Builder
 	for _, f := range g.Frags {
-		fmt.Fprintf(&b, "%%fragment %s resin:%s resout:%s\n", f.Name, regList(f.ResIn), regList(f.ResOut))
+		if len(f.ResIn) == 0 {
+			fmt.Fprintf(&b, "%%fragment %s resout:%s\n", f.Name, regList(f.ResOut))
+		} else {
+			fmt.Fprintf(&b, "%%fragment %s resin:%s resout:%s\n", f.Name, regList(f.ResIn), regList(f.ResOut))
+		}
 		for _, o := range f.Body {
 			fmt.Fprintf(&b, "\t%s\n", opBASM(o))
 		}
